@@ -1103,7 +1103,7 @@ pub fn cxx_markers(inl: &Desc, ty: &str) -> Vec<&'static str> {
 }
 
 /// a struct that reaches itself through its fields (legal through unsized arrays)
-fn has_struct_cycle(d: &Desc) -> bool {
+pub fn has_struct_cycle(d: &Desc) -> bool {
     fn reach(d: &Desc, from: &str, target: &str, seen: &mut Vec<String>) -> bool {
         if seen.iter().any(|s| s == from) {
             return false;
